@@ -334,6 +334,13 @@ impl crate::traits::Transaction for SqliteStore {
             .await
             .expect("if semaphore is closed then the whole struct is gone as well");
 
+        // Verification hook: the permit is held, the transaction slot is not set yet.
+        #[cfg(p2panda_p2panda_verif)]
+        {
+            verif_emit("sqlite.acquired");
+            p2panda_core::verif::point("sqlite.begin.acquired").await;
+        }
+
         // Access the transaction object which we've placed behind a Mutex. This lock follows a
         // different logic and only makes sure that mutable access to it is exclusive _within_ a
         // process "holding" the transaction permit.
@@ -344,6 +351,10 @@ impl crate::traits::Transaction for SqliteStore {
         );
         let tx = self.pool.begin().await?;
         tx_ref.replace(tx);
+
+        // Verification hook: linearisation point of `begin`, under the held permit.
+        #[cfg(p2panda_p2panda_verif)]
+        verif_emit("sqlite.begin");
 
         Ok(TransactionPermit::new(permit, self.tx.clone()))
     }
@@ -358,6 +369,17 @@ impl crate::traits::Transaction for SqliteStore {
         };
 
         let result = tx.rollback().await.map_err(SqliteError::Sqlite);
+
+        // Verification hook: the transaction is rolled back, the permit is still held.
+        #[cfg(p2panda_p2panda_verif)]
+        {
+            verif_emit(if result.is_ok() {
+                "sqlite.rollback.ok"
+            } else {
+                "sqlite.rollback.err"
+            });
+            p2panda_core::verif::point("sqlite.rollback.done").await;
+        }
 
         // Always drop the permit, both on successful rollback and error. This will allow other
         // processes now to begin a new transaction and acquire the permit.
@@ -376,6 +398,17 @@ impl crate::traits::Transaction for SqliteStore {
         };
 
         let result = tx.commit().await.map_err(SqliteError::Sqlite);
+
+        // Verification hook: the transaction is committed, the permit is still held.
+        #[cfg(p2panda_p2panda_verif)]
+        {
+            verif_emit(if result.is_ok() {
+                "sqlite.commit.ok"
+            } else {
+                "sqlite.commit.err"
+            });
+            p2panda_core::verif::point("sqlite.commit.done").await;
+        }
 
         // Always drop the permit, both on successful commit and error. This will allow other
         // processes now to begin a new transaction and acquire the permit.
@@ -424,14 +457,47 @@ impl Drop for TransactionPermit {
             let tx = self.tx.clone();
 
             tokio::spawn(async move {
+                // Verification hook: the spawned rollback task starts.
+                #[cfg(p2panda_p2panda_verif)]
+                p2panda_core::verif::point("sqlite.auto_rollback.start").await;
+
+                #[cfg(p2panda_p2panda_verif)]
+                let mut rolled_back = "sqlite.auto_rollback.none";
+
                 if let Some(tx) = tx.lock().await.take() {
                     let _ = tx.rollback().await;
+
+                    #[cfg(p2panda_p2panda_verif)]
+                    {
+                        rolled_back = "sqlite.auto_rollback.some";
+                    }
+                }
+
+                // Verification hook: linearisation point of the automatic rollback, the permit
+                // clone is still held.
+                #[cfg(p2panda_p2panda_verif)]
+                {
+                    verif_emit(rolled_back);
+                    p2panda_core::verif::point("sqlite.auto_rollback.done").await;
                 }
 
                 drop(permit); // Semaphore released only after rollback completes.
+
+                #[cfg(p2panda_p2panda_verif)]
+                verif_emit("sqlite.auto_rollback.released");
             });
         }
     }
+}
+
+/// Verification hook: appends `{"ev": name, "task": id of the current tokio task}` to the
+/// process-wide event log of `p2panda_core::verif`.
+#[cfg(p2panda_p2panda_verif)]
+fn verif_emit(name: &str) {
+    let task = tokio::task::try_id()
+        .map(|id| id.to_string())
+        .unwrap_or_default();
+    p2panda_core::verif::emit(format!("{{\"ev\":\"{name}\",\"task\":\"{task}\"}}"));
 }
 
 /// Error when interacting with a SQLite store implementation.
